@@ -1,0 +1,19 @@
+//! Verification-only re-exports (cargo feature `__verif`, off by default).
+//!
+//! Gives an external verification harness access to server-internal components so that real
+//! nodes can be assembled around a simulated transport. Nothing here changes behaviour.
+
+pub use crate::membership::RaftMembership;
+
+use d_engine_core::RaftNodeConfig;
+use d_engine_core::TypeConfig;
+use d_engine_proto::server::cluster::NodeMeta;
+
+/// Same construction `NodeBuilder::build()` performs.
+pub fn new_raft_membership<T: TypeConfig>(
+    node_id: u32,
+    initial_nodes: Vec<NodeMeta>,
+    config: RaftNodeConfig,
+) -> (RaftMembership<T>, tokio::sync::mpsc::Receiver<u32>) {
+    RaftMembership::new(node_id, initial_nodes, config)
+}
